@@ -25,7 +25,7 @@ import (
 )
 
 func init() {
-	fw.Register(&fw.Check{ID: "C35", Level: "exploration", Run: runC35, QuickBudget: 240, ThoroughBudget: 1200})
+	fw.Register(&fw.Check{ID: "C35", Level: "exploration", Run: runC35, QuickBudget: 300, ThoroughBudget: 1400})
 }
 
 type c35Env struct {
@@ -124,7 +124,7 @@ func (e *c35Env) rt(msg string, rank int, descr func() string, enc func(w io.Wri
 	fail := func(kind, what string) {
 		e.fails.add("roundtrip/"+msg+"/"+kind, [3]int{rank, 0, 0}, func() (string, string, any) {
 			d := descr()
-			return fmt.Sprintf("%s round-trip: %s: %s", msg, kind, d), what, map[string]any{"message": msg, "value": d, "encoded": dShort(buf.Bytes()), "want": want}
+			return fmt.Sprintf("%s round-trip: %s: %s", msg, kind, d), what + " [value " + d + "]", map[string]any{"message": msg, "value": d, "encoded": dShort(buf.Bytes()), "want": want}
 		})
 	}
 	var eerr error
@@ -137,7 +137,7 @@ func (e *c35Env) rt(msg string, rank int, descr func() string, enc func(w io.Wri
 		eerr = enc(&buf)
 	}()
 	if eerr != nil {
-		fail("encode error ("+c53Outcome(eerr)+")", "Encode refuses a well-formed value: "+eerr.Error())
+		fail("encode error", "Encode refuses a well-formed value: "+eerr.Error())
 		e.cls.add(e.c, msg+"|"+class+"|encode-error")
 		return nil
 	}
@@ -152,7 +152,7 @@ func (e *c35Env) rt(msg string, rank int, descr func() string, enc func(w io.Wri
 		got, derr = dec(bytes.NewReader(buf.Bytes()))
 	}()
 	if derr != nil {
-		fail("decode error ("+c53Outcome(derr)+")", "Decode rejects go-git's own encoding: "+derr.Error())
+		fail("decode error", "Decode rejects go-git's own encoding: "+derr.Error())
 		e.cls.add(e.c, msg+"|"+class+"|decode-error")
 		return buf.Bytes()
 	}
@@ -230,12 +230,12 @@ func c35AdvSpace(format string, full bool) []*c35Adv {
 		}
 		capSets = append(capSets, []string{"symref=HEAD:refs/heads/a", "symref=refs/x:refs/heads/a", "agent=x", "multi_ack_detailed", "thin-pack", "ofs-delta", "shallow", "no-done", "filter", "include-tag", "allow-tip-sha1-in-want"})
 	} else {
-		capSets = [][]string{{}, {"multi_ack"}, {"symref=HEAD:refs/heads/a", "agent=git/2.39.5"}, {"multi_ack", "side-band-64k", "symref=HEAD:refs/heads/a", "agent=x"}}
+		capSets = [][]string{{}, {"multi_ack", "side-band-64k", "symref=HEAD:refs/heads/a", "agent=x"}}
 	}
 	shallowSets := [][]plumbing.Hash{{}, {h[1]}, {h[2], h[1]}}
 	versions := []protocol.Version{protocol.V0, protocol.V1}
 	if !full {
-		shallowSets = shallowSets[:2]
+		shallowSets = [][]plumbing.Hash{{}}
 		versions = versions[:1]
 	}
 	var out []*c35Adv
@@ -515,7 +515,7 @@ func c35RoundTrips(e *c35Env) {
 	}
 
 	// ---- capability lists (v0/v1 string form and v2 pkt-line form)
-	capAlpha := []string{"multi_ack", "agent=x", "agent=", "symref=HEAD:refs/heads/a", "symref=refs/b:refs/heads/c", "object-format=sha256", "side-band-64k", "fetch=shallow", "fetch=filter"}
+	capAlpha := []string{"multi_ack", "agent=x", "agent=git/2.39.5", "symref=HEAD:refs/heads/a", "symref=refs/b:refs/heads/c", "object-format=sha256", "side-band-64k", "fetch=shallow", "fetch=filter"}
 	for _, seq := range fw.Seqs(len(capAlpha), 3) {
 		var items []string
 		for _, i := range seq {
@@ -779,7 +779,14 @@ func c35GitSide(e *c35Env) {
 				}
 				for _, l := range want {
 					if !gs[l] {
-						kind += " missing " + strings.SplitN(l, "\t", 2)[1]
+						switch {
+						case strings.HasSuffix(l, "^{}"):
+							kind += ": a peeled entry is missing"
+						case strings.HasPrefix(l, "ref: "):
+							kind += ": a symref is missing"
+						default:
+							kind += ": a reference is missing"
+						}
 						break
 					}
 				}
@@ -1097,6 +1104,16 @@ func c35GitSide(e *c35Env) {
 		}
 	}
 	c.Bound("v2_ls_refs_requests_sent_to_git", len(v2))
+	// the references as git itself lists them now (the receive-pack part left some behind)
+	refsNow := map[string]map[string]string{}
+	for f, rp := range repos {
+		refsNow[f] = map[string]string{}
+		for _, l := range strings.Split(rp.g.MustRun("for-each-ref", "--format=%(objectname) %(refname)").S(), "\n") {
+			if p := strings.SplitN(l, " ", 2); len(p) == 2 {
+				refsNow[f][p[1]] = p[0]
+			}
+		}
+	}
 	c.ParDo(len(v2), 0, func(i int) {
 		vc := v2[i]
 		rp := repos[vc.format]
@@ -1116,7 +1133,10 @@ func c35GitSide(e *c35Env) {
 		} else if err := lo.Decode(bytes.NewReader(r.Out)); err != nil {
 			bad = "git's ls-refs output unreadable (" + c53Outcome(err) + ")"
 		} else {
-			all := map[string]string{"HEAD": rp.commits[3], "refs/heads/main": rp.commits[3], "refs/heads/old": rp.commits[1], "refs/tags/v1": rp.tag}
+			all := map[string]string{"HEAD": rp.commits[3]}
+			for n, h := range refsNow[vc.format] {
+				all[n] = h
+			}
 			var want []string
 			for n, h := range all {
 				keep := len(args.RefPrefixes) == 0
@@ -1133,7 +1153,7 @@ func c35GitSide(e *c35Env) {
 				} else {
 					want = append(want, n+"="+h)
 				}
-				if n == "refs/tags/v1" && args.Peel {
+				if args.Peel && h == rp.tag { // refs pointing at the annotated tag object
 					want = append(want, n+"^{}="+rp.commits[1])
 				}
 			}
@@ -1161,7 +1181,7 @@ func c35GitSide(e *c35Env) {
 	}
 	var fetches []v2f
 	for _, f := range []string{"sha1", "sha256"} {
-		for _, p := range fw.Product(2, 3, 4, 3) {
+		for _, p := range fw.Product(2, c.Pick(2, 3), 4, c.Pick(2, 3)) {
 			fetches = append(fetches, v2f{f, p})
 		}
 	}
